@@ -3369,3 +3369,58 @@ func ruleHunkRaw(w *World, r *Report, pkg *ssa.Package, tag string) {
 		r.Ok(rule, tag+":hunk-values", "-", "no hunk value stores found in the set / multiset diffs: this rule makes no claim (not decided)")
 	}
 }
+
+// ruleRootPath — R-ROOTPATH (C01, C07). Every exported Diff method starts the
+// recursion at the root: the path it hands to the unexported diff is empty. A
+// path that starts with an element (`make(Path, 1)`) puts a nil element in
+// front of every hunk of that diff; the hunk then addresses nothing in the
+// document. The entry points are siblings — the same obligation for each node
+// type, so that the one that is only reached after a Patch stored a list/set
+// view back into the document (jsonList.Diff and friends, which no test calls)
+// cannot drift.
+func ruleRootPath(w *World, r *Report, pkg *ssa.Package, tag string) {
+	const rule = "R-ROOTPATH"
+	n := 0
+	for _, tn := range w.Implementers(pkg, "JsonNode") {
+		fn := w.MethodOpt(pkg, tn.Obj().Name(), "Diff")
+		if fn == nil || fn.Blocks == nil {
+			continue
+		}
+		k := 0
+		allInstrs(fn, func(in ssa.Instruction) {
+			c, ok := in.(ssa.CallInstruction)
+			if !ok {
+				return
+			}
+			for _, a := range c.Common().Args {
+				if typeName(a.Type()) != "Path" {
+					continue
+				}
+				k++
+				n++
+				empty := false
+				switch x := strip(a).(type) {
+				case *ssa.MakeSlice:
+					if l, ok := constInt(x.Len); ok && l == 0 {
+						empty = true
+					}
+				case *ssa.Const:
+					empty = x.IsNil()
+				case *ssa.Slice:
+					if al, ok := x.X.(*ssa.Alloc); ok {
+						if at, ok := al.Type().(*types.Pointer).Elem().Underlying().(*types.Array); ok && at.Len() == 0 {
+							empty = true
+						}
+					}
+				}
+				r.Fn(fnName(fn))
+				r.Check(empty, rule, fmt.Sprintf("%s:starts-at-root#%d", fnName(fn), k), w.Pos(c.Pos()),
+					"the exported Diff hands an empty path to the recursion",
+					"the exported Diff starts the recursion with a path that is not empty: every hunk of that diff carries a leading element that addresses nothing in the document")
+			}
+		})
+	}
+	if n < 8 {
+		r.Bad(rule, tag+":instance-floor", "-", fmt.Sprintf("only %d Diff entry points with a root path found (one per node type expected)", n))
+	}
+}
